@@ -167,11 +167,11 @@ def configs(tier, seed):
         ps, seeds, nk, S = tuple(range(7, 17)), (0, 2**63 + 1, 2**64 - 1), 6, 2
     for p in ps:
         for sd in seeds:
-            keys = alphabet(p, sd, nk, salt)
+            keys = alphabet(p, sd, nk if p <= 12 else 5, salt)
             ng = [[keys[1] + keys[2], 8], [keys[3], 9]]
             out.append(dict(p=p, seed=sd, S=S, keys=keys, ngrams=ng, depth=14))
     if tier == "thorough":
-        for p, sd in ((7, 0), (12, 2**64 - 1), (16, 2**63 + 1)):
+        for p, sd in ((7, 0), (9, 2**64 - 1), (11, 2**63 + 1)):
             keys = alphabet(p, sd, 7, salt)[1:]
             out.append(dict(p=p, seed=sd, S=3, keys=keys, ngrams=[], depth=24, events="lean"))
     return out
